@@ -23,7 +23,8 @@ Inductive op1 :=
 | OGroupByReduceMax           (* group_by_reduce *)
 | OFoldSum | OFoldAssocSum | OReduceMax | OReduceAssocMax
 | OAddState                   (* inside a loop body: (k, v) -> (k, v + state); outside: identity with state 0 *)
-| ONested (n limit : Z) (body : list op1).   (* a replay loop nested in a loop body; its own state starts at 0 *)
+| ONested (n limit : Z) (body : list op1)    (* a replay loop nested in a loop body; its own state starts at 0 *)
+| ONestedO (n limit : Z) (body : list op1).  (* as ONested, but the ops of the body read the ENCLOSING state *)
 
 Inductive jvar := JvInner | JvLeft | JvOuter.
 Inductive jship := ShHash | ShBroadcast.
@@ -74,6 +75,19 @@ Fixpoint ev1 (state : Z) (o : op1) (xs : list P) {struct o} : list P :=
                      | O => st
                      | S f =>
                          let st1 := st + zsum (map snd (evs st body xs)) in
+                         if (st1 <? limit) && (k + 1 <? n) then loop f (k + 1) st1 else st1
+                     end) in
+      [(0, loop (Z.to_nat (Z.max n 1)) 0 0)]
+  | ONestedO n limit body =>
+      (* as above, but every inner round evaluates the body with the ENCLOSING [state]: the
+         inner running sum [st] only drives the stop condition and the result *)
+      let evs := (fix evs (st : Z) (os : list op1) (acc : list P) {struct os} : list P :=
+                    match os with [] => acc | o' :: os' => evs st os' (ev1 st o' acc) end) in
+      let loop := (fix loop (fuel : nat) (k st : Z) {struct fuel} : Z :=
+                     match fuel with
+                     | O => st
+                     | S f =>
+                         let st1 := st + zsum (map snd (evs state body xs)) in
                          if (st1 <? limit) && (k + 1 <? n) then loop f (k + 1) st1 else st1
                      end) in
       [(0, loop (Z.to_nat (Z.max n 1)) 0 0)]
